@@ -823,3 +823,10 @@ func (m *Machine) builtin(b *ssa.Builtin, args []Value) Value {
 
 // runeLen is used by summaries that need UTF-8 facts of concrete text.
 func runeLen(s string) int { return utf8.RuneCountInString(s) }
+
+// Interval reports what a run has established about an atom: lo/hi bounds
+// (±Inf when unbounded) and whether each end is open.
+func (m *Machine) Interval(a *Atom) (lo, hi float64, loOpen, hiOpen bool) {
+	iv := m.ivOf(a)
+	return iv.lo, iv.hi, iv.loOpen, iv.hiOpen
+}
